@@ -272,6 +272,8 @@ def main(argv):
             for _ in range(nsched):
                 lines, meta = gen_schedule(rng, route, nalloc, start[route], tier)
                 cases.append((wi, base_plan(rng, route) + lines, meta))
+        # a wall-clock budget must thin the worlds evenly, not drop the programs that come last
+        vsim.Rng(seed, "c09-order").shuffle(cases)
         budget = checklib.Budget(420 if tier == "quick" else 2700)
         results = []
         B = 64
